@@ -40,8 +40,15 @@ static inline void fnptr_call_dtor(DtorTag f, void *p)
 #define QueuedEvent_DEFAULT() ((QueuedEvent){0})
 
 /* ------------------------------------------------------------------ TRUSTED std::list abstraction */
-static inline void wl_init(WList *l) { l->len = 0; l->w[0] = -1; l->w[1] = -1; }
+struct Mutex;
+static inline void wl_init(WList *l) { l->len = 0; l->w[0] = -1; l->w[1] = -1; l->guard = NULL; }
 #define WLIST_INIT(l) wl_init(l)
+/* member lists: guarded by their mutex (ghost) */
+#define GUARD_OF_queueList(s) (&(s)->queueListMutex)
+#define GUARD_OF_freeList(s) (&(s)->freeListMutex)
+#define WLIST_MEMBER_INIT(l, s, name) do { wl_init(l); (l)->guard = GUARD_OF_##name(s); } while (0)
+/* lock discipline (C03 / C06): every structural change of a shared list happens with its mutex held */
+#define WL_GUARDED(l) __CPROVER_assert((l)->guard == NULL || (l)->guard->depth == 1, "lock discipline: a shared list is changed only with its mutex held")
 #define WLIST_EMPTY(l) ((l)->len == 0)
 #define WLIST_BEGIN(l) ((WIt){(l), 0})
 #define WLIST_END(l) ((WIt){(l), (l)->len})
@@ -59,13 +66,20 @@ static inline Slot *wl_at(WList *l, long i)
 }
 #define WIT_DEREF(it) wl_at((it).l, (it).i)
 #define WLIST_FRONT(l) wl_at(l, 0)
-static inline void wl_swap(WList *a, WList *b) { WList t = *a; *a = *b; *b = t; }
+static inline void wl_swap(WList *a, WList *b)
+{
+  WL_GUARDED(a); WL_GUARDED(b);
+  long t = a->len; a->len = b->len; b->len = t;
+  t = a->w[0]; a->w[0] = b->w[0]; b->w[0] = t;
+  t = a->w[1]; a->w[1] = b->w[1]; b->w[1] = t;      /* the guard stays with the variable */
+}
 #define WLIST_SWAP(a, b) wl_swap(a, b)
 extern WList *g_rm_list; extern long g_rm_idx; extern WList *g_ins_list; extern long g_ins_idx;
 /* splice(pos, other): all elements of `other` move in front of pos, order kept */
 static inline void wl_splice_all(WList *d, WIt pos, WList *s)
 {
   __CPROVER_assert(pos.l == d && pos.i >= 0 && pos.i <= d->len && d != s, "std::list::splice: position belongs to the destination");
+  WL_GUARDED(d); WL_GUARDED(s);
 #define SA_K(k) if (s->w[k] >= 0) { __CPROVER_assert(d->w[k] < 0, "a slot is in one list only"); d->w[k] = pos.i + s->w[k]; } \
                 else if (d->w[k] >= pos.i) d->w[k] += s->len;
   SA_K(0) SA_K(1)
@@ -77,6 +91,7 @@ static inline void wl_splice_one(WList *d, WIt pos, WList *s, WIt it)
 {
   __CPROVER_assert(pos.l == d && pos.i >= 0 && pos.i <= d->len, "std::list::splice: position belongs to the destination");
   __CPROVER_assert(it.l == s && it.i >= 0 && it.i < s->len && d != s, "std::list::splice: iterator is dereferenceable in the source");
+  WL_GUARDED(d); WL_GUARDED(s);
   int moved = -1;
 #define SO_K(k) if (s->w[k] == it.i) { moved = k; s->w[k] = -1; } else if (s->w[k] > it.i) s->w[k]--;
   SO_K(0) SO_K(1)
@@ -116,7 +131,22 @@ static inline void wl_dtor(WList *l)
 #define WLIST_DTOR(l) wl_dtor(l)
 
 #define CONDVAR_INIT(c) ((c)->notified = 0)
-#define CONDVAR_NOTIFY_ONE(c) ((c)->notified++)
+/* C07 monitor discipline (sufficient condition for "no lost wake-up" with a standard condition variable):
+ * a write that can make the wait predicate true (queueNotifyCounter reaching 0; the queue becoming non-empty, which
+ * happens inside queueListMutex by the lock discipline above) must be made with queueListMutex held, or the writer
+ * must acquire queueListMutex at least once after the write, BEFORE it notifies.  ghost g_dirty = such a write has
+ * been made without the mutex and no acquisition has followed yet. */
+extern _Bool g_dirty;
+#define NOTIFYCNT_PREINC(p) (++*(p))
+#define NOTIFYCNT_PREDEC(p) notifycnt_predec(p)
+static inline int notifycnt_predec(int *p)
+{
+  Q *q = (Q *)((char *)p - __builtin_offsetof(Q, queueNotifyCounter));
+  --*p;
+  if (*p == 0 && q->queueListMutex.depth == 0) g_dirty = 1;
+  return *p;
+}
+#define CONDVAR_NOTIFY_ONE(c) (__CPROVER_assert(!g_dirty, "monitor discipline: the predicate-enabling write is ordered with the waiter's check by queueListMutex before notify (else the wake-up can be lost)"), (c)->notified++)
 #define CONDVAR_NOTIFY_ALL(c) ((c)->notified++)
 /* wait(lock, pred): TRUSTED semantics: returns only after pred() evaluated true with the mutex held.
  * sequential mode: nobody else runs, so a false predicate blocks forever */
@@ -135,13 +165,15 @@ static inline void wl_dtor(WList *l)
 #define Q_OK_K(q, k) (!g_born[k] ? ((q)->queueList.w[k] < 0 && (q)->freeList.w[k] < 0 && !g_cons[k] && !g_dead[k]) \
                                  : (SLOT_OK_M(k) && !((q)->queueList.w[k] >= 0 && (q)->freeList.w[k] >= 0) && \
                                     ((q)->queueList.w[k] < 0 || SLOT_QUEUED_M(k)) && ((q)->freeList.w[k] < 0 || SLOT_FREE_M(k))))
-#define Q_OK_M(q) (WL_OK_M((q)->queueList) && WL_OK_M((q)->freeList) && (q)->queueEmptyCounter >= 0 && (q)->queueNotifyCounter >= 0 && \
+#define Q_OK_M(q) (WL_OK_M((q)->queueList) && WL_OK_M((q)->freeList) && (q)->queueList.guard == &(q)->queueListMutex && (q)->freeList.guard == &(q)->freeListMutex && (q)->queueEmptyCounter >= 0 && (q)->queueNotifyCounter >= 0 && \
                    (q)->queueEmptyCounter <= 1000000 && (q)->queueNotifyCounter <= 1000000 && \
                    (q)->queueListConditionVariable.notified >= 0 && (q)->queueListConditionVariable.notified <= (1 << 30) && Q_OK_K(q, 0) && Q_OK_K(q, 1))
 static inline _Bool q_ok(const Q *q) { return Q_OK_M(q); }
 /* machine-arithmetic assumption: list lengths stay far below 2^62 (stated in evidence) */
 #define Q_SMALL(q) ((q)->queueList.len < (1L << 40) && (q)->freeList.len < (1L << 40) && (q)->queueListConditionVariable.notified < (1 << 29) && (q)->queueEmptyCounter < 1000 && (q)->queueNotifyCounter < 1000)
 #define Q_MID(q) ((q)->queueList.len < (1L << 61) && (q)->freeList.len < (1L << 61) && (q)->queueListConditionVariable.notified < (1 << 29))
+/* window: the queue object; the ghost guards of its lists are its own mutexes (pointer_equals: value sets) */
+#define Q_FRESH(s) (__CPROVER_is_fresh(s, sizeof(Q)) && __CPROVER_pointer_equals((s)->queueList.guard, &(s)->queueListMutex) && __CPROVER_pointer_equals((s)->freeList.guard, &(s)->freeListMutex))
 #define NOLOCKS(q) ((q)->queueListMutex.depth == 0 && (q)->freeListMutex.depth == 0)
 #define INLIST(q, k) ((q)->queueList.w[k] >= 0 || (q)->freeList.w[k] >= 0)
 #define GHOSTS g_S[0], g_S[1], g_anon, g_cons[0], g_cons[1], g_argid[0], g_argid[1], g_disp[0], g_disp[1], g_seq, g_dseq[0], g_dseq[1], g_born[0], g_born[1], g_taken[0], g_taken[1], g_dead[0], g_dead[1], g_rm_list, g_rm_idx, g_ins_list, g_ins_idx
@@ -169,7 +201,7 @@ extern _Bool g_in_processing;
   __CPROVER_requires(DD_K(0) ==> (g_cons[0] && g_disp[0] == 0 && a1.id == g_argid[0] && *a0 == (g_argid[0] ^ 0x2a))) \
   __CPROVER_requires(DD_K(1) ==> (g_cons[1] && g_disp[1] == 0 && a1.id == g_argid[1] && *a0 == (g_argid[1] ^ 0x2a))) \
   __CPROVER_requires(g_in_processing ==> QQ->queueEmptyCounter >= 1)            /* C11: seen as non-empty from inside a listener */ \
-  __CPROVER_assigns(QQ->queueList, QQ->freeList, QQ->queueListConditionVariable.notified, GHOSTS) \
+  __CPROVER_assigns(QQ->queueList.len, QQ->queueList.w, QQ->freeList.len, QQ->freeList.w, QQ->queueListConditionVariable.notified, GHOSTS) \
   __CPROVER_ensures(NOLOCKS(QQ) && q_ok(QQ) && g_seq > __CPROVER_old(g_seq)) \
   __CPROVER_ensures(QQ->queueList.len < (1L << 61) && QQ->freeList.len < (1L << 61) && QQ->queueListConditionVariable.notified < (1 << 29))   /* sizes stay far below the machine limits (assumption) */ \
   __CPROVER_ensures(DD_K(0) ==> (g_disp[0] == 1 && g_dseq[0] == g_seq)) \
@@ -188,7 +220,7 @@ extern _Bool g_in_processing;
 /* ================================================================== doEnqueue (eventqueue.h:490)
  * takes a recycled slot (or creates one), constructs the event in it, appends it at the END of queueList */
 #define CONTRACT_Q_doEnqueue \
-  __CPROVER_requires(__CPROVER_is_fresh(self, sizeof(Q)) && __CPROVER_is_fresh(item, sizeof(QueuedEvent))) \
+  __CPROVER_requires(Q_FRESH(self) && __CPROVER_is_fresh(item, sizeof(QueuedEvent))) \
   __CPROVER_requires(NOLOCKS(self) && q_ok(self) && Q_SMALL(self) && item->event == (item->arguments.a0.id ^ 0x2a)) \
   __CPROVER_assigns(self->queueList, self->freeList, self->queueListMutex.depth, self->freeListMutex.depth, item->arguments.a0.id, GHOSTS) \
   __CPROVER_ensures(NOLOCKS(self) && q_ok(self)) \
@@ -202,7 +234,7 @@ extern _Bool g_in_processing;
  * statement: the event is queued "with the argument values it had when enqueue was called" under the key getEvent
  * yields from those values; an lvalue argument of the caller is left untouched */
 #define ENQ_CONTRACT(LV) \
-  __CPROVER_requires(__CPROVER_is_fresh(self, sizeof(Q)) && __CPROVER_is_fresh(args, sizeof(VArg))) \
+  __CPROVER_requires(Q_FRESH(self) && __CPROVER_is_fresh(args, sizeof(VArg)) && !g_dirty) \
   __CPROVER_requires(NOLOCKS(self) && q_ok(self) && Q_SMALL(self)) \
   __CPROVER_assigns(self->queueList, self->freeList, self->queueListMutex.depth, self->freeListMutex.depth, self->queueListConditionVariable.notified, GHOSTS) \
   __CPROVER_assigns(!(LV): args->id) \
@@ -234,7 +266,7 @@ extern _Bool g_in_processing;
   __CPROVER_decreases(tempList.len - __begin_L0.i)
 #define PROC_POST(k) (__CPROVER_old(self->queueList.w[k]) >= 0 ==> (DONE_M(k) && self->freeList.w[k] >= 0))
 #define CONTRACT_Q_process \
-  __CPROVER_requires(__CPROVER_is_fresh(self, sizeof(Q))) \
+  __CPROVER_requires(Q_FRESH(self)) \
   __CPROVER_requires(NOLOCKS(self) && q_ok(self) && Q_SMALL(self) && g_in_processing) \
   __CPROVER_requires(g_b0 == (self->queueList.w[0] >= 0 && self->queueList.w[1] >= 0 && self->queueList.w[0] < self->queueList.w[1])) \
   __CPROVER_requires(g_b1 == (self->queueList.w[0] >= 0 && self->queueList.w[1] >= 0 && self->queueList.w[1] < self->queueList.w[0])) \
@@ -254,14 +286,14 @@ extern _Bool g_in_processing;
 
 /* ================================================================== emptyQueue (eventqueue.h:186) */
 #define CONTRACT_Q_emptyQueue \
-  __CPROVER_requires(__CPROVER_is_fresh(self, sizeof(Q))) \
+  __CPROVER_requires(Q_FRESH(self)) \
   __CPROVER_assigns() \
   __CPROVER_ensures(__CPROVER_return_value == (self->queueList.len == 0 && self->queueEmptyCounter == 0))
 
 /* ================================================================== processOne (eventqueue.h:240): exactly the front event */
 #define P1_FRONT(k) (__CPROVER_old(self->queueList.w[k]) == 0 ==> (DONE_M(k) && self->freeList.w[k] >= 0))
 #define CONTRACT_Q_processOne \
-  __CPROVER_requires(__CPROVER_is_fresh(self, sizeof(Q))) \
+  __CPROVER_requires(Q_FRESH(self)) \
   __CPROVER_requires(NOLOCKS(self) && q_ok(self) && Q_SMALL(self) && g_in_processing) \
   __CPROVER_assigns(self->queueList, self->freeList, self->queueListMutex.depth, self->freeListMutex.depth, self->queueEmptyCounter, self->queueListConditionVariable.notified, GHOSTS) \
   __CPROVER_ensures(NOLOCKS(self) && q_ok(self) && self->queueEmptyCounter == __CPROVER_old(self->queueEmptyCounter)) \
@@ -273,7 +305,7 @@ extern _Bool g_in_processing;
                                                                   g_disp[k] == 0 && !g_cons[k] && g_S[k].dtor == NULL && self->freeList.w[k] >= 0))
 #define TK_REST(k)  (__CPROVER_old(self->queueList.w[k]) > 0 ==> self->queueList.w[k] == __CPROVER_old(self->queueList.w[k]) - 1)
 #define CONTRACT_Q_takeEvent \
-  __CPROVER_requires(__CPROVER_is_fresh(self, sizeof(Q)) && __CPROVER_is_fresh(queuedEvent, sizeof(QueuedEvent))) \
+  __CPROVER_requires(Q_FRESH(self) && __CPROVER_is_fresh(queuedEvent, sizeof(QueuedEvent))) \
   __CPROVER_requires(NOLOCKS(self) && q_ok(self) && Q_SMALL(self)) \
   __CPROVER_assigns(self->queueList, self->freeList, self->queueListMutex.depth, self->freeListMutex.depth, *queuedEvent, GHOSTS) \
   __CPROVER_ensures(NOLOCKS(self) && q_ok(self)) \
@@ -284,7 +316,7 @@ extern _Bool g_in_processing;
 /* ================================================================== peekEvent (eventqueue.h:429): copy of the front event, queue unchanged */
 #define PK_FRONT(k) (self->queueList.w[k] == 0 ==> (queuedEvent->arguments.a0.id == g_argid[k] && queuedEvent->event == (g_argid[k] ^ 0x2a)))
 #define CONTRACT_Q_peekEvent \
-  __CPROVER_requires(__CPROVER_is_fresh(self, sizeof(Q)) && __CPROVER_is_fresh(queuedEvent, sizeof(QueuedEvent))) \
+  __CPROVER_requires(Q_FRESH(self) && __CPROVER_is_fresh(queuedEvent, sizeof(QueuedEvent))) \
   __CPROVER_requires(NOLOCKS(self) && q_ok(self)) \
   __CPROVER_assigns(self->queueListMutex.depth, *queuedEvent, g_anon) \
   __CPROVER_ensures(NOLOCKS(self) && q_ok(self)) \
@@ -301,7 +333,7 @@ extern _Bool g_in_processing;
   __CPROVER_decreases(tempList.len - __begin_L0.i)
 #define CLR_POST(k) (__CPROVER_old(self->queueList.w[k]) >= 0 ==> (!g_cons[k] && g_S[k].dtor == NULL && g_disp[k] == 0 && self->freeList.w[k] >= 0))
 #define CONTRACT_Q_clearEvents \
-  __CPROVER_requires(__CPROVER_is_fresh(self, sizeof(Q))) \
+  __CPROVER_requires(Q_FRESH(self)) \
   __CPROVER_requires(NOLOCKS(self) && q_ok(self) && Q_SMALL(self)) \
   __CPROVER_assigns(self->queueList, self->freeList, self->queueListMutex.depth, self->freeListMutex.depth, GHOSTS) \
   __CPROVER_ensures(NOLOCKS(self) && q_ok(self) && self->queueList.len == 0) \
@@ -318,7 +350,7 @@ extern int g_pred[2]; extern _Bool g_verdict[2];
   __CPROVER_requires(PI_K(0) ==> (SLOT_QUEUED_M(0) && g_pred[0] == 0)) \
   __CPROVER_requires(PI_K(1) ==> (SLOT_QUEUED_M(1) && g_pred[1] == 0))                 /* each event is examined at most once, intact */ \
   __CPROVER_requires(g_in_processing ==> self->queueEmptyCounter >= 1) \
-  __CPROVER_assigns(self->queueList, self->freeList, self->queueListConditionVariable.notified, GHOSTS, g_pred[0], g_pred[1]) \
+  __CPROVER_assigns(self->queueList.len, self->queueList.w, self->freeList.len, self->freeList.w, self->queueListConditionVariable.notified, GHOSTS, g_pred[0], g_pred[1]) \
   __CPROVER_ensures(NOLOCKS(self) && q_ok(self) && Q_MID(self) && g_seq >= __CPROVER_old(g_seq)) \
   __CPROVER_ensures(DD_INFLIGHT_SAME2(0) && DD_INFLIGHT_SAME2(1)) \
   __CPROVER_ensures(g_dead[0] == __CPROVER_old(g_dead[0]) && g_dead[1] == __CPROVER_old(g_dead[1])) \
@@ -359,7 +391,7 @@ extern int g_pred[2]; extern _Bool g_verdict[2];
      (g_verdict[k] ? (DONE_M(k) && self->freeList.w[k] >= 0 && __CPROVER_return_value) \
                    : (SLOT_QUEUED_M(k) && self->queueList.w[k] >= 0 && self->queueList.w[k] <= __CPROVER_old(self->queueList.w[k])))))
 #define PIF_CONTRACT \
-  __CPROVER_requires(__CPROVER_is_fresh(self, sizeof(Q)) && __CPROVER_is_fresh(predictor, sizeof(*predictor))) \
+  __CPROVER_requires(Q_FRESH(self) && __CPROVER_is_fresh(predictor, sizeof(*predictor))) \
   __CPROVER_requires(NOLOCKS(self) && q_ok(self) && Q_SMALL(self) && g_in_processing && g_pred[0] == 0 && g_pred[1] == 0) \
   __CPROVER_requires(g_b0 == (self->queueList.w[0] >= 0 && self->queueList.w[1] >= 0 && self->queueList.w[0] < self->queueList.w[1])) \
   __CPROVER_requires(g_b1 == (self->queueList.w[0] >= 0 && self->queueList.w[1] >= 0 && self->queueList.w[1] < self->queueList.w[0])) \
@@ -394,7 +426,7 @@ extern int g_pred[2]; extern _Bool g_verdict[2];
                                         : (SLOT_QUEUED_M(k) && self->queueList.w[k] >= 0 && self->queueList.w[k] <= __CPROVER_old(self->queueList.w[k]))))
 #define STAYED(k) (self->queueList.w[k] >= 0 && !(g_pred[k] == 1 && !g_verdict[k]))
 #define CONTRACT_Q_processUntil__UserPred \
-  __CPROVER_requires(__CPROVER_is_fresh(self, sizeof(Q)) && __CPROVER_is_fresh(predictor, sizeof(*predictor))) \
+  __CPROVER_requires(Q_FRESH(self) && __CPROVER_is_fresh(predictor, sizeof(*predictor))) \
   __CPROVER_requires(NOLOCKS(self) && q_ok(self) && Q_SMALL(self) && g_in_processing && g_pred[0] == 0 && g_pred[1] == 0) \
   __CPROVER_requires(g_b0 == (self->queueList.w[0] >= 0 && self->queueList.w[1] >= 0 && self->queueList.w[0] < self->queueList.w[1])) \
   __CPROVER_requires(g_b1 == (self->queueList.w[0] >= 0 && self->queueList.w[1] >= 0 && self->queueList.w[1] < self->queueList.w[0])) \
@@ -410,7 +442,8 @@ extern int g_pred[2]; extern _Bool g_verdict[2];
  * statement: every queue so obtained "reports empty until something is enqueued into it, and waiting, notification and
  * processing work" -- whatever the object's storage held before (*self is completely unconstrained here) */
 #define QCTOR_POST (self->queueEmptyCounter == 0 && self->queueNotifyCounter == 0 && self->queueList.len == 0 && self->freeList.len == 0 && \
-                    self->queueList.w[0] < 0 && self->queueList.w[1] < 0 && self->freeList.w[0] < 0 && self->freeList.w[1] < 0 && NOLOCKS(self) && self->queueListConditionVariable.notified == 0)
+                    self->queueList.w[0] < 0 && self->queueList.w[1] < 0 && self->freeList.w[0] < 0 && self->freeList.w[1] < 0 && NOLOCKS(self) && self->queueListConditionVariable.notified == 0 && \
+                    self->queueList.guard == &self->queueListMutex && self->freeList.guard == &self->freeListMutex)
 #define CONTRACT_DispatcherBase_ctor __CPROVER_assigns(self->opaque)
 #define CONTRACT_DispatcherBase_ctor_copy __CPROVER_assigns(self->opaque)
 #define CONTRACT_DispatcherBase_ctor_move __CPROVER_assigns(self->opaque, a0->opaque)
@@ -421,20 +454,51 @@ extern int g_pred[2]; extern _Bool g_verdict[2];
   __CPROVER_assigns(__CPROVER_object_whole(self)) \
   __CPROVER_ensures(QCTOR_POST)
 #define CONTRACT_Q_ctor_copy \
-  __CPROVER_requires(__CPROVER_is_fresh(self, sizeof(Q)) && __CPROVER_is_fresh(other, sizeof(Q))) \
+  __CPROVER_requires(__CPROVER_is_fresh(self, sizeof(Q)) && Q_FRESH(other)) \
   __CPROVER_assigns(__CPROVER_object_whole(self)) \
   __CPROVER_ensures(QCTOR_POST)      /* and: no pending events are copied; the source is not written (frame) */
 #define CONTRACT_Q_ctor_move \
-  __CPROVER_requires(__CPROVER_is_fresh(self, sizeof(Q)) && __CPROVER_is_fresh(other, sizeof(Q))) \
+  __CPROVER_requires(__CPROVER_is_fresh(self, sizeof(Q)) && Q_FRESH(other)) \
   __CPROVER_assigns(__CPROVER_object_whole(self), other->base_DispatcherBase.opaque) \
   __CPROVER_ensures(QCTOR_POST)
 /* assignment transfers / copies listeners only: the queue state of the destination is untouched */
 #define CONTRACT_Q_assign_copy \
-  __CPROVER_requires(__CPROVER_is_fresh(self, sizeof(Q)) && (PEQQ(other, self) || __CPROVER_is_fresh(other, sizeof(Q)))) \
+  __CPROVER_requires(Q_FRESH(self) && (PEQQ(other, self) || Q_FRESH(other))) \
   __CPROVER_assigns(self->base_DispatcherBase.opaque) \
   __CPROVER_ensures(__CPROVER_return_value == self)
 #define CONTRACT_Q_assign_move \
-  __CPROVER_requires(__CPROVER_is_fresh(self, sizeof(Q)) && (PEQQ(other, self) || __CPROVER_is_fresh(other, sizeof(Q)))) \
+  __CPROVER_requires(Q_FRESH(self) && (PEQQ(other, self) || Q_FRESH(other))) \
   __CPROVER_assigns(self->base_DispatcherBase.opaque, other->base_DispatcherBase.opaque) \
   __CPROVER_ensures(__CPROVER_return_value == self)
 #define PEQQ(a, b) __CPROVER_pointer_equals(a, b)
+
+
+/* ================================================================== C07: wait / waitFor / DisableQueueNotify (eventqueue.h:88-110, 400-415)
+ * safety halves: wait returns, and waitFor returns true, only after observing a non-empty queue with notification
+ * enabled (the wait predicate is doCanProcess, evaluated with queueListMutex held); waitFor returns false only with the
+ * predicate false at its final evaluation (the timeout itself is the trusted wait_for contract). */
+#define CANPROC(q) (!((q)->queueList.len == 0 && (q)->queueEmptyCounter == 0) && (q)->queueNotifyCounter == 0)
+#define CONTRACT_Q_doCanProcess \
+  __CPROVER_requires(Q_FRESH(self)) \
+  __CPROVER_assigns() \
+  __CPROVER_ensures(__CPROVER_return_value == CANPROC(self))
+#define CONTRACT_Q_wait \
+  __CPROVER_requires(Q_FRESH(self) && NOLOCKS(self)) \
+  __CPROVER_assigns(self->queueListMutex.depth) \
+  __CPROVER_ensures(NOLOCKS(self) && CANPROC(self))
+#define CONTRACT_Q_waitFor__long_std_ratio_1_1000 \
+  __CPROVER_requires(Q_FRESH(self) && __CPROVER_is_fresh(duration, sizeof(Duration)) && NOLOCKS(self)) \
+  __CPROVER_assigns(self->queueListMutex.depth) \
+  __CPROVER_ensures(NOLOCKS(self) && __CPROVER_return_value == CANPROC(self))
+/* DisableQueueNotify: notification is deferred while one is alive and resumes (with a wake-up if events are pending)
+ * when the last one dies */
+#define CONTRACT_DisableQueueNotify_ctor1 \
+  __CPROVER_requires(__CPROVER_is_fresh(self, sizeof(DisableQueueNotify)) && Q_FRESH(queue) && queue->queueNotifyCounter >= 0 && queue->queueNotifyCounter < 1000) \
+  __CPROVER_assigns(self->queue, queue->queueNotifyCounter) \
+  __CPROVER_ensures(self->queue == queue && queue->queueNotifyCounter == __CPROVER_old(queue->queueNotifyCounter) + 1)
+#define CONTRACT_DisableQueueNotify_dtor \
+  __CPROVER_requires(__CPROVER_is_fresh(self, sizeof(DisableQueueNotify)) && Q_FRESH(self->queue)) \
+  __CPROVER_requires(self->queue->queueNotifyCounter >= 1 && NOLOCKS(self->queue) && !g_dirty && self->queue->queueListConditionVariable.notified < 1000 && self->queue->queueListConditionVariable.notified >= 0) \
+  __CPROVER_assigns(self->queue->queueNotifyCounter, self->queue->queueListConditionVariable.notified, self->queue->queueListMutex.depth, g_dirty) \
+  __CPROVER_ensures(NOLOCKS(self->queue) && self->queue->queueNotifyCounter == __CPROVER_old(self->queue->queueNotifyCounter) - 1) \
+  __CPROVER_ensures(CANPROC(self->queue) ==> self->queue->queueListConditionVariable.notified == __CPROVER_old(self->queue->queueListConditionVariable.notified) + 1)   /* pending events + last guard gone => a waiter is woken */
